@@ -109,11 +109,15 @@ pub async fn spawn_process<P: Process>(
         };
 
         process.terminate().await;
+        #[cfg(edp_rs_verif)]
+        edp_client::verif::point(format!("proc:{}", pid.id), "proc.failed", "").await;
 
         if let Err(e) = propagate_exit_signals(&handle_clone, &registry, exit_reason).await {
             tracing::error!("Failed to propagate exit signals for {}: {}", pid, e);
         }
 
+        #[cfg(edp_rs_verif)]
+        edp_client::verif::point(format!("proc:{}", pid.id), "proc.removing", "").await;
         registry.remove(&pid).await;
     });
 
@@ -126,6 +130,13 @@ async fn propagate_exit_signals(
     reason: OwnedTerm,
 ) -> Result<()> {
     let links = handle.get_links().await;
+    #[cfg(edp_rs_verif)]
+    edp_client::verif::point(
+        format!("proc:{}", handle.pid.id),
+        "proc.links_snapshot",
+        "",
+    )
+    .await;
     for linked_pid in links {
         if let Some(linked_handle) = registry.get(&linked_pid).await {
             let _ = linked_handle
